@@ -166,8 +166,14 @@ pub extern "C" fn tsrun_get_string(val: *const TsRunValue) -> *const c_char {
     unsafe { val.as_ref() }
         .and_then(|v| {
             if let JsValue::String(s) = v.value() {
-                // Allocate a CString for C compatibility
-                Some(str_to_c_string(s.as_str()) as *const c_char)
+                // One NUL-terminated copy per handle, released with it; a string with interior
+                // NULs keeps all its bytes (tsrun_get_string_len says how many)
+                let bytes = v.c_string.get_or_init(|| {
+                    let mut bytes = s.as_str().as_bytes().to_vec();
+                    bytes.push(0);
+                    bytes
+                });
+                Some(bytes.as_ptr() as *const c_char)
             } else {
                 None
             }
@@ -747,6 +753,7 @@ pub extern "C" fn tsrun_json_parse(
             }
             TsRunValueResult::ok(Box::new(TsRunValue {
                 inner: crate::RuntimeValue::with_guard(value, guard),
+                c_string: core::cell::OnceCell::new(),
             }))
         }
         Err(e) => TsRunValueResult::err(ctx, e.to_string()),
@@ -807,6 +814,7 @@ pub extern "C" fn tsrun_object_new(ctx: *mut TsRunContext) -> TsRunValueResult {
     let obj = ctx.interp.create_object(&guard);
     TsRunValueResult::ok(Box::new(TsRunValue {
         inner: crate::RuntimeValue::with_guard(JsValue::Object(obj), guard),
+        c_string: core::cell::OnceCell::new(),
     }))
 }
 
@@ -827,6 +835,7 @@ pub extern "C" fn tsrun_array_new(ctx: *mut TsRunContext) -> TsRunValueResult {
     let arr = ctx.interp.create_array_from(&guard, vec![]);
     TsRunValueResult::ok(Box::new(TsRunValue {
         inner: crate::RuntimeValue::with_guard(JsValue::Object(arr), guard),
+        c_string: core::cell::OnceCell::new(),
     }))
 }
 
